@@ -208,6 +208,12 @@ def generate(rng, tier):
     for f in [65, 67, 193, 195]:
         Hs(["sg.%d.1.76a9.1000" % f, "sh.%d.1.76a9.2000" % f, "sk.%d.1.76a9.3000" % f, "fk", "sh.%d.1.76a9.4000" % f, "sw", "sh.%d.1.76a9.5000" % f,
             "cl", "sg.%d.1.76a9.18446744073709551615" % f, "sh.%d.1.76a9.0" % f, "fb", "sh.%d.1.76a9.6000" % f, "sg.%d.0.76a9.7000" % f, "sh.%d.0.76a9.8000" % f], t33)
+    # annotations carried by inputs (satoshis, locking script) that differ from the call arguments, kept by clone / JSON / CBOR and
+    # dropped by bytes / hex; sighash and sign with other amounts and with the empty subscript
+    for f in [65, 67, 193, 195, 1, 3, 131]:
+        Hs(["an.1.777.76a914+r:09:20+88ac", "sh.%d.1.76a9.1000" % f, "sh.%d.1..1000" % f, "sg.%d.1.ac.2000" % f, "an.0.5.-", "an.2.-.ab51",
+            "sh.%d.1..0" % f, "fj", "sh.%d.1.76a9.3000" % f, "sh.%d.1..3000" % f, "fc", "sh.%d.1.ac.18446744073709551615" % f, "fk", "an.1.9.6a", "sh.%d.1..4000" % f,
+            "sw", "sh.%d.1..4000" % f, "cl", "sk.%d.1.76a9.5" % f, "fb", "sh.%d.1..1000" % f, "sh.65.0.76a9.1"], t33)
     # other starting shapes for the short histories
     for (nin, nout) in [(1, 1), (3, 1), (1, 3)]:
         t = G.mk_tx(rng, nin, nout).hex()
